@@ -34,7 +34,10 @@ ASSUMPTIONS = [
 OBLIGATIONS = {"outside:left": 100, "outside:right": 100, "outside:bottom": 100,
                "outside:top": 100, "outside:diag": 100, "inside": 1000,
                "grid:1row": 3, "grid:1col": 3, "invalid-cell": 50,
-               "neighbours": 200, "rowcol": 200, "xyvalues": 20}
+               "neighbours": 200, "rowcol": 200, "xyvalues": 20,
+               "construction-path:1": 20, "construction-path:2": 20,
+               "construction-path:3": 20, "construction-path:4": 20,
+               "construction-path:5": 20}
 
 
 def G():
@@ -75,8 +78,24 @@ def run_geom_case(ctx, case):
     rng = np.random.default_rng(seed)
     g = Geom(nrows, ncols, xll, yll, csz)
     gr = Grid("g", ncols, nrows, cellsize=csz, xllcorner=xll, yllcorner=yll)
-    path = seed % 4
-    if path == 1:
+    path = seed % 6
+    if path in (4, 5):
+        # a grid that was used with another geometry first (and, for path 5, cloned
+        # after use), then moved / rescaled by assigning its geometry attributes
+        gr = Grid("g", ncols, nrows, cellsize=csz * 3.0, xllcorner=xll - 7.25 * csz,
+                  yllcorner=yll + 1000.5 * csz)
+        c0 = np.arange(min(g.ncells, 5))
+        p0 = gr.cell2coord(c0)
+        gr.coord2cell(p0)
+        gr.cell2rowcol(c0)
+        gr.neighbours(0)
+        _ = gr.xvalues, gr.yvalues
+        if path == 5:
+            gr = gr.clone()
+        gr.xllcorner = xll
+        gr.yllcorner = yll
+        gr.cellsize = csz
+    elif path == 1:
         gr = Grid.from_dict(gr.to_dict())
     elif path == 2:
         gr = gr.clone(np.int32)
